@@ -87,6 +87,9 @@ func Build(s *tspace.Schema, indexes map[string][]model.ClientIndex) (*Model, er
 			fields = append(fields, reflect.StructField{Name: fn, Type: GoType(c), Tag: reflect.StructTag(fmt.Sprintf(`ovsdb:"%s"`, c.Name))})
 			m.fieldOf[t.Name][c.Name] = fn
 		}
+		// two tables with the same columns must not share one Go type (the
+		// library keys its metadata by type): add an untagged marker field
+		fields = append(fields, reflect.StructField{Name: "XTable" + FieldName(t.Name), Type: reflect.TypeOf(struct{}{})})
 		st := reflect.StructOf(fields)
 		m.Types[t.Name] = st
 		models[t.Name] = reflect.New(st).Interface()
